@@ -55,13 +55,15 @@ theorem finish_stack_nil (s : BState) : (finish s).core.stack = [] := by
 /-- **L_classes** (with nesting): for every document the event stream replays — under the rules
     "`close` matches the innermost open container, an `item` is opened exactly inside a `list`, a quote /
     list / leaf is never opened directly inside a `list`" — to the empty stack. -/
-theorem L_wellFormed (lines : List Line) : WellFormed (events lines) := by
-  unfold WellFormed events run
-  have h := (finish (lines.foldl step BState.init)).core.inv.bal
-  have hs := finish_stack_nil (lines.foldl step BState.init)
+theorem L_wellFormedR (rd : Reading) (lines : List Line) : WellFormed (eventsR rd lines) := by
+  unfold WellFormed eventsR runR
+  have h := (finish (lines.foldl (step rd) BState.init)).core.inv.bal
+  have hs := finish_stack_nil (lines.foldl (step rd) BState.init)
   unfold Core.stack at hs
   rw [hs] at h
   simpa [kinds, Core.out] using h
+
+theorem L_wellFormed (lines : List Line) : WellFormed (events lines) := L_wellFormedR {} lines
 
 theorem L_classes (lines : List Line) : WellFormed (events lines) := L_wellFormed lines
 
@@ -71,31 +73,35 @@ theorem L_balanced (lines : List Line) : WellNested (events lines) := (L_wellFor
 theorem L_balanced_doc (doc : List Char) : WellNested (events (docLines doc)) := L_balanced _
 
 /-! ## (b) the line counter -/
-theorem foldl_step_n : ∀ (ls : List Line) (s : BState), (ls.foldl step s).n = s.n + ls.length
+theorem foldl_step_n (rd : Reading) : ∀ (ls : List Line) (s : BState), (ls.foldl (step rd) s).n = s.n + ls.length
   | [], s => by simp
   | l :: ls, s => by
     simp only [List.foldl_cons, List.length_cons]
-    rw [foldl_step_n ls (step s l)]
+    rw [foldl_step_n rd ls (step rd s l)]
     show s.n + 1 + ls.length = s.n + (ls.length + 1)
     omega
 
-theorem run_n (ls : List Line) : (run ls).n = ls.length := by
-  unfold run finish
+theorem runR_n (rd : Reading) (ls : List Line) : (runR rd ls).n = ls.length := by
+  unfold runR finish
   simp only
   rw [foldl_step_n]
   simp [BState.init]
+
+theorem run_n (ls : List Line) : (run ls).n = ls.length := runR_n {} ls
 
 /-- **L_pos_range**: every event of a document of `n` lines satisfies `EvOK n`:
     `open k p`          1 ≤ p.line ≤ n, 1 ≤ p.col;
     `close k e`         e ≤ n;
     `leaf k p e lines`  1 ≤ p.line ≤ n, 1 ≤ p.col, e ≤ n, every payload line number in 1..n. -/
-theorem L_pos_range (lines : List Line) : ∀ e ∈ events lines, EvOK lines.length e := by
+theorem L_pos_rangeR (rd : Reading) (lines : List Line) : ∀ e ∈ eventsR rd lines, EvOK lines.length e := by
   intro e he
-  have h := (run lines).core.inv.rng e (by
-    unfold events Core.out at he
+  have h := (runR rd lines).core.inv.rng e (by
+    unfold eventsR Core.out at he
     exact List.mem_reverse.mp he)
-  rw [run_n] at h
+  rw [runR_n] at h
   exact h
+
+theorem L_pos_range (lines : List Line) : ∀ e ∈ events lines, EvOK lines.length e := L_pos_rangeR {} lines
 
 /-- the same, read off the start line of positioned events. -/
 theorem L_line_range (lines : List Line) :
@@ -130,9 +136,11 @@ theorem monoRev_pairwise : ∀ (es : List Ev), MonoRev es → (startLines es.rev
         exact h.2 l hl x hx a hxa
 
 /-- **L_lines_mono**: along the stream, start lines of `open` and `leaf` events never decrease. -/
-theorem L_lines_mono (lines : List Line) : (startLines (events lines)).Pairwise (· ≤ ·) := by
-  unfold events Core.out
-  exact monoRev_pairwise _ (run lines).core.inv.mono
+theorem L_lines_monoR (rd : Reading) (lines : List Line) : (startLines (eventsR rd lines)).Pairwise (· ≤ ·) := by
+  unfold eventsR Core.out
+  exact monoRev_pairwise _ (runR rd lines).core.inv.mono
+
+theorem L_lines_mono (lines : List Line) : (startLines (events lines)).Pairwise (· ≤ ·) := L_lines_monoR {} lines
 
 /-! ## non-vacuity -/
 example : events ["> - a".toList, "> - b".toList] ≠ [] := by decide
